@@ -395,6 +395,21 @@ CAMLprim value vp_crc_impl(value which, value s, value align)
 	free(raw);
 	CAMLreturn(caml_copy_int64((int64_t)(uint64_t) r));
 }
+/* mtbl_crc32c twice on ONE buffer whose content is replaced in place between the calls (same address, same length) */
+CAMLprim value vp_crc_inplace(value s1, value s2)
+{
+	CAMLparam2(s1, s2); CAMLlocal1(r);
+	size_t n = caml_string_length(s1);
+	uint8_t *raw = malloc(n + 16);
+	memcpy(raw + 3, String_val(s1), n);
+	uint32_t a = mtbl_crc32c(raw + 3, n);
+	memcpy(raw + 3, String_val(s2), n);
+	uint32_t b = mtbl_crc32c(raw + 3, n);
+	free(raw);
+	r = caml_alloc_tuple(2);
+	Store_field(r, 0, caml_copy_int64((int64_t)(uint64_t) a)); Store_field(r, 1, caml_copy_int64((int64_t)(uint64_t) b));
+	CAMLreturn(r);
+}
 CAMLprim value vp_sse42_supported(value unit)
 {
 #if __GNUC__ >= 3 && defined(__x86_64__)
